@@ -66,6 +66,16 @@ func (m *ListenMux) Route(prefix string) net.Listener {
 	}
 
 	lis, ok := m.routes[prefix]
+	if ok {
+		// a listener that has been closed stays in the map until its monitor
+		// gets around to removing it. it must not be handed out again: its
+		// Accept fails and connections for the prefix would never reach it.
+		select {
+		case <-lis.done:
+			ok = false
+		default:
+		}
+	}
 	if !ok {
 		lis = newListener(m.addr)
 		m.routes[prefix] = lis
@@ -139,7 +149,11 @@ func (m *ListenMux) monitorListener(prefix string, lis *listener) {
 	case <-lis.done:
 	}
 	m.mu.Lock()
-	delete(m.routes, prefix)
+	// the prefix may have been registered again in the meantime: only remove
+	// the entry if it still is this listener.
+	if m.routes[prefix] == lis {
+		delete(m.routes, prefix)
+	}
 	m.mu.Unlock()
 }
 
